@@ -161,6 +161,29 @@ func checkC05(p *Program, r *Report) {
 		}
 	}
 	sites := goSites(p)
+	// package-level state reachable from goroutine bodies
+	{
+		r.Rule("R05.6", "goroutines share no package-level mutable state: no function reachable from the body of any go statement writes a package-level variable")
+		var roots []*ssa.Function
+		for _, s := range sites {
+			if s.cl != nil {
+				roots = append(roots, s.cl)
+			}
+		}
+		ws := globalWritesFrom(p, roots)
+		seenW := map[string]bool{}
+		for _, w := range ws {
+			k := FuncKey(w.fn) + ":writes:" + w.g.Name()
+			if seenW[k] {
+				continue
+			}
+			seenW[k] = true
+			r.Fail("R05.6", k, p.Pos(w.site.Pos()), fmt.Sprintf("package-level variable %s is written by %s, which runs inside cell/model goroutines: concurrent cells race on it and results depend on the schedule", w.g.Name(), FuncKey(w.fn)))
+		}
+		if len(ws) == 0 {
+			r.OK("R05.6", fmt.Sprintf("%d goroutine bodies: no reachable write to a package-level variable", len(roots)))
+		}
+	}
 	r.Floor("R05.1", "go statements", len(sites), 43)
 	for _, s := range sites {
 		key := fmt.Sprintf("%s:go#%d", FuncKey(s.fn), s.ord)
